@@ -248,6 +248,21 @@ pub fn check(run: &Run) -> Value {
             out.samples.push(serde_json::to_string(desc).unwrap());
         }
     });
+    for parents in crate::sweeps::c01_late_forests(&b) {
+        let chunk = crate::codec::topo_cases_for_forest(&parents, b.topo_classes);
+        let o = run_cases(&chunk, &|_, desc, out| {
+            out.nontrivial += 1;
+            for c in Compression::all() {
+                out.executions += 1;
+                let (o, vs) = judge(desc, c);
+                out.outcome(&o);
+                for (key, what) in vs {
+                    out.violation(key, what, || serde_json::to_value(Replay03 { desc: desc.clone(), compression: c }).unwrap());
+                }
+            }
+        });
+        total.merge(o);
+    }
     let (c0, e0) = (total.cases, total.executions);
     let scalar = crate::scalar::sweep(run, crate::scalar::Which::WriterVsSpec, &mut total);
     total.report(run);
